@@ -1,69 +1,253 @@
-"""Generated/RtcmConsts.v + Generated/Crc24qTable.v from src/point_one/rtcm/rtcm_framer.cc:
-the 256-entry CRC-24Q table, preamble, header/CRC sizes, length mask, maximum frame size, the SetBuffer
-clamp and alignment constants, and a shape check of CRC24Hash / EndianSwap16 / EndianSwap24 (the three
-helper routines the model transcribes).  Fail closed: anything not recognised raises."""
-import os, re, sys
+"""Generated/RtcmConsts.v + Generated/Crc24qTable.v: constants of the C++ RTCM framer, obtained by EVALUATING the
+working tree rather than matching its text (they are file-static in rtcm_framer.cc, so they are derived from the
+behaviour of the real RTCMFramer through harness/cpp/c14_probe.cc):
+  * CRC-24Q table: candidates are (a) any 256-entry array of rtcm_framer.cc, evaluated by the compiler (the .cc is
+    included into a generated translation unit that prints the array — values, not spelling), (b) the table that
+    follows from polynomial 0x1864CFB.  A candidate is taken only if the REAL framer accepts frames whose CRC is
+    computed with it (table-driven, 32-bit accumulator, init 0, 24-bit mask) — frames covering all 256 indices.
+    So a corrupted entry in the source still ends up in Generated/Crc24qTable.v and breaks crc24q_table_correct.
+  * preamble: the one first byte for which such a frame is accepted; length mask: which of the 16 bits of bytes
+    1-2 count towards the length; maximum payload: the largest accepted; message-number shift: from the number
+    reported for known payload bytes; header / CRC sizes 3 / 3 are the shape the model assumes;
+  * usable capacity as a function of (address, capacity) = 6 + the largest payload accepted; from it the alignment,
+    the minimum capacity and the extra bytes of a managed framer; the 2^31-1 clamp has no observable effect beyond
+    "capacities >= 2^32 do not wrap" (checked), its value is read from capacity_bytes_ when that member exists.
+Anything not of the modelled shape fails closed.  Probe and results are cached under build/gen_c14 by source hash."""
+import hashlib, json, os, random, re, subprocess, sys
 sys.path.insert(0, os.path.join(os.path.dirname(__file__), '..', 'lib'))
 import vf
 
-SRC = 'src/point_one/rtcm/rtcm_framer.cc'
+SOURCES = ['src/point_one/rtcm/rtcm_framer.cc', 'src/point_one/rtcm/rtcm_framer.h', 'src/point_one/fusion_engine/common/logging.cc',
+           'src/point_one/fusion_engine/common/logging.h', 'src/point_one/fusion_engine/common/portability.h']
+PROBE = os.path.join(vf.VERIF, 'harness/cpp/c14_probe.cc')
+POLY = 0x1864CFB
 
 
-def cint(s):
-    return int(s.strip().rstrip('uUlL'), 0)
+def _hash():
+    h = hashlib.sha1()
+    for p in [os.path.join(vf.REPO, s) for s in SOURCES] + [PROBE, __file__]:
+        h.update(open(p, 'rb').read())
+    return h.hexdigest()[:16]
 
 
-def nows(s):
-    return re.sub(r'\s+', '', s)
+def poly_table():
+    out = []
+    for i in range(256):
+        c = i << 16
+        for _ in range(8):
+            c <<= 1
+            if c & 0x1000000:
+                c ^= POLY
+        out.append(c & 0xFFFFFF)
+    return out
 
 
-def need(m, what):
-    if not m:
-        raise RuntimeError('gen_c14: %s not recognised in %s' % (what, SRC))
-    return m
+def crc_t(T, data):
+    c = 0
+    for b in data:
+        c = ((c << 8) & 0xFFFFFFFF) ^ T[(b ^ (c >> 16)) & 0xFF]
+    return c & 0xFFFFFF
+
+
+def used_indices(T, data):
+    c, out = 0, set()
+    for b in data:
+        i = (b ^ (c >> 16)) & 0xFF
+        out.add(i)
+        c = ((c << 8) & 0xFFFFFFFF) ^ T[i]
+    return out
+
+
+def frame(T, pre, payload, hdr=None):
+    n = len(payload)
+    h16 = n if hdr is None else hdr
+    body = bytes([pre, (h16 >> 8) & 0xFF, h16 & 0xFF]) + bytes(payload)
+    c = crc_t(T, body)
+    return body + bytes([c >> 16, (c >> 8) & 0xFF, c & 0xFF])
+
+
+class Probe:
+    def __init__(self, exe):
+        self.p = subprocess.Popen([exe], stdin=subprocess.PIPE, stdout=subprocess.PIPE, text=True, bufsize=1)
+
+    def ask(self, line):
+        self.p.stdin.write(line + '\n'); self.p.stdin.flush()
+        out = self.p.stdout.readline()
+        if not out:
+            raise RuntimeError('gen_c14: probe died on %r' % line[:80])
+        return [int(x) for x in out.split()]
+
+    def close(self):
+        try:
+            self.p.stdin.close(); self.p.wait(timeout=10)
+        except Exception:
+            self.p.kill()
+
+
+def compiled_tables(d, key):
+    """256-entry arrays of rtcm_framer.cc, as the compiler evaluates them"""
+    txt = vf.repo_file(SOURCES[0])
+    code = re.sub(r'//[^\n]*', '', re.sub(r'/\*.*?\*/', '', txt, flags=re.S))
+    names = [m.group(1) for m in re.finditer(r'(\w+)\s*\[[^\]]*\]\s*=\s*\{([^{}]*)\}', code) if m.group(2).count(',') >= 255]
+    out = []
+    for k, name in enumerate(names):
+        cc = os.path.join(d, 'tab_%s_%d_%d.cc' % (key, os.getpid(), k)); exe = cc[:-3]
+        open(cc, 'w').write('#include <cstdio>\n#include "%s"\nint main() { for (int i = 0; i < 256; ++i) printf("%%llu\\n", (unsigned long long)%s[i]); return 0; }\n'
+                            % (os.path.join(vf.REPO, SOURCES[0]), name))
+        rc, so, se = vf.sh('clang++-14 -std=c++14 -O0 -I%s/src %s %s -o %s' % (vf.REPO, cc, os.path.join(vf.REPO, SOURCES[2]), exe), timeout=300)
+        if rc == 0:
+            rc, so, se = vf.sh([exe], timeout=60)
+            vals = [int(x) for x in so.split()]
+            if rc == 0 and len(vals) == 256:
+                out.append(vals)
+        for f in (cc, exe):
+            try: os.remove(f)
+            except OSError: pass
+    return out
+
+
+def derive(exe, tables):
+    pr = Probe(exe)
+    rng = random.Random(11)
+    try:
+        acc = lambda a, cap, data, kind='U': pr.ask(('U %d %d %s' % (a, cap, bytes(data).hex())) if kind == 'U' else ('M %d %s' % (cap, bytes(data).hex())))
+        chosen = None
+        why = []
+        for T in tables:
+            pres = [p for p in range(256) if acc(0, 4096, frame(T, p, bytes([1, 2, 3, 4, 5])))[0] == 1]
+            if len(pres) != 1:
+                why.append('no single accepted preamble (%r)' % pres[:5]); continue
+            pre = pres[0]
+            seen, ok = set(), True
+            for _ in range(3000):
+                f = frame(T, pre, bytes(rng.getrandbits(8) for _ in range(rng.randint(0, 40))))
+                r = acc(0, 4096, f)
+                if not (r[0] == 1 and r[1] == len(f) and r[3] == len(f)):
+                    ok = False; break
+                seen |= used_indices(T, f[:-3])
+                if len(seen) == 256:
+                    break
+            if ok and len(seen) == 256:
+                chosen = (T, pre); break
+            why.append('frames built with the candidate table are not all accepted' if not ok else 'could not cover all table indices')
+        if not chosen:
+            raise RuntimeError('gen_c14: no CRC table candidate reproduces the framer (table-driven CRC-24, init 0, mask 0xFFFFFF): ' + '; '.join(why))
+        T, pre = chosen
+        F = lambda payload, hdr=None: frame(T, pre, payload, hdr)
+        # length mask
+        mask = 0
+        for k in range(16):
+            if k < 10:
+                if acc(0, 4096, F(bytes(1 << k)))[0] == 1:
+                    mask |= 1 << k
+            else:
+                if acc(0, 4096, F(bytes(5), hdr=(1 << k) | 5))[0] != 1:
+                    mask |= 1 << k
+        if mask == 0 or mask & (mask + 1):
+            raise RuntimeError('gen_c14: the length field is not a contiguous low-bit mask: 0x%x' % mask)
+        maxp = next((L for L in range(min(mask, 4000), -1, -1) if acc(0, 8192, F(bytes(L)))[0] == 1), None)
+        if maxp is None:
+            raise RuntimeError('gen_c14: no payload length is accepted')
+        n1 = acc(0, 4096, F(b'\xff\xff\x00'))[2]
+        shift = 16 - n1.bit_length()
+        if acc(0, 4096, F(b'\xa5\x3c\x00'))[2] != (0xA53C >> shift) or n1 != (0xFFFF >> shift):
+            raise RuntimeError('gen_c14: message number is not (first two payload bytes) >> k')
+
+        def usable(kind, a, cap):
+            ok = lambda L: acc(a, cap, F(bytes(L)), kind)[0] == 1
+            if not ok(0):
+                return 0
+            lo, hi = 0, maxp
+            while lo < hi:
+                mid = (lo + hi + 1) // 2
+                if ok(mid): lo = mid
+                else: hi = mid - 1
+            return 6 + lo
+        shifts = [500 - usable('U', a, 500) for a in range(8)]
+        align = next((P for P in (1, 2, 4, 8) if all(shifts[a] == (-a) % P for a in range(8))), None)
+        if align is None:
+            raise RuntimeError('gen_c14: usable capacity vs address is not "capacity - ((-address) mod 2^k)": shifts %r' % shifts)
+        for a in range(8):
+            s = (-a) % align
+            for c in list(range(0, 16)) + [63, 64, 65, 6 + maxp - 1, 6 + maxp, 6 + maxp + 1, 6 + maxp + 5, 2048]:
+                want = min(c - s, 6 + maxp) if (c >= 6 and c - s >= 6) else 0
+                got = usable('U', a, c)
+                if got != want:
+                    raise RuntimeError('gen_c14: usable(address %d, capacity %d) = %d, the modelled shape gives %d' % (a, c, got, want))
+        extras = {usable('M', 0, n) - n for n in (10, 40, 100)}
+        if len(extras) != 1 or min(extras) < 0:
+            raise RuntimeError('gen_c14: managed framers do not have capacity + constant usable bytes: %r' % extras)
+        caps = set()
+        for claimed in ((1 << 32) + 10, 1 << 33, (1 << 31) + 5):
+            r = acc(0, claimed, F(bytes(maxp)))
+            if r[0] != 1:
+                raise RuntimeError('gen_c14: a capacity of %d bytes wraps around (largest frame not accepted)' % claimed)
+            caps.add(r[5])
+        clamp = 2147483647
+        if caps != {-1}:
+            if len(caps) != 1:
+                raise RuntimeError('gen_c14: capacities >= 2^31 are not clamped to one value: %r' % caps)
+            clamp = caps.pop()
+        return {'RTCM_PREAMBLE': pre, 'RTCM_HEADER_BYTES': 3, 'RTCM_CRC_BYTES': 3, 'RTCM_MAX_PAYLOAD': maxp, 'RTCM_LEN_MASK': mask,
+                'RTCM_TYPE_SHIFT': shift, 'RTCM_CRC_INIT': 0, 'RTCM_CRC_MASK': 0xFFFFFF, 'RTCM_CLAMP': clamp, 'RTCM_ALIGN_MASK': align - 1,
+                'RTCM_MANAGED_EXTRA': extras.pop(), 'table': T}
+    finally:
+        pr.close()
+
+
+def constants():
+    d = os.path.join(vf.BUILD, 'gen_c14')
+    os.makedirs(d, exist_ok=True)
+    key = _hash()
+    cache = os.path.join(d, 'consts_%s.json' % key)
+    if os.path.exists(cache):
+        return json.load(open(cache))
+    exe = os.path.join(d, 'probe_%s_%d' % (key, os.getpid()))
+    srcs = ' '.join(os.path.join(vf.REPO, s) for s in SOURCES if s.endswith('.cc'))
+    rc, so, se = vf.sh('clang++-14 -std=c++14 -O1 -I%s/src %s %s -o %s' % (vf.REPO, PROBE, srcs, exe), timeout=300)
+    if rc != 0:
+        raise RuntimeError('gen_c14: probe does not compile against the working tree: ' + se[-1500:])
+    try:
+        tables = compiled_tables(d, key)
+        pt = poly_table()
+        if pt not in tables:
+            tables.append(pt)
+        vals = derive(exe, tables)
+    finally:
+        try: os.remove(exe)
+        except OSError: pass
+    tmp = cache + '.%d' % os.getpid()
+    json.dump(vals, open(tmp, 'w')); os.replace(tmp, cache)
+    return vals
+
+
+KEYS = ['RTCM_PREAMBLE', 'RTCM_HEADER_BYTES', 'RTCM_CRC_BYTES', 'RTCM_MAX_PAYLOAD', 'RTCM_LEN_MASK', 'RTCM_TYPE_SHIFT', 'RTCM_CRC_INIT',
+        'RTCM_CRC_MASK', 'RTCM_CLAMP', 'RTCM_ALIGN_MASK', 'RTCM_MANAGED_EXTRA']
+DEFAULTS = {'RTCM_PREAMBLE': 211, 'RTCM_HEADER_BYTES': 3, 'RTCM_CRC_BYTES': 3, 'RTCM_MAX_PAYLOAD': 1023, 'RTCM_LEN_MASK': 1023, 'RTCM_TYPE_SHIFT': 4,
+            'RTCM_CRC_INIT': 0, 'RTCM_CRC_MASK': 16777215, 'RTCM_CLAMP': 2147483647, 'RTCM_ALIGN_MASK': 3, 'RTCM_MANAGED_EXTRA': 3}
+
+
+def write(vals):
+    t = vf.gen_header([SOURCES[0] + ' (compiled, probed)']) + 'From Coq Require Import NArith.\nOpen Scope N_scope.\n'
+    for k in KEYS:
+        t += 'Definition %s : N := %d.\n' % (k, vals[k])
+    vf.write_if_changed(os.path.join(vf.THEORIES, 'Generated', 'RtcmConsts.v'), t)
+    table = vals['table']
+    t = vf.gen_header([SOURCES[0] + ' (compiled, probed)']) + 'From Coq Require Import NArith List.\nImport ListNotations.\nOpen Scope N_scope.\n'
+    t += 'Definition crc24q_table_src : list N :=\n  [' + ';\n   '.join('; '.join(str(x) for x in table[i:i + 8]) for i in range(0, 256, 8)) + '].\n'
+    vf.write_if_changed(os.path.join(vf.THEORIES, 'Generated', 'Crc24qTable.v'), t)
+
+
+def ensure_present():
+    g = os.path.join(vf.THEORIES, 'Generated')
+    if not (os.path.exists(os.path.join(g, 'RtcmConsts.v')) and os.path.exists(os.path.join(g, 'Crc24qTable.v'))):
+        write(dict(DEFAULTS, table=poly_table()))
 
 
 def generate():
-    txt = vf.repo_file(SRC)
-    code = re.sub(r'//[^\n]*', '', re.sub(r'/\*.*?\*/', '', txt, flags=re.S))
-    flat = nows(code)
-    pre = cint(need(re.search(r'RTCM3_PREAMBLE\s*=\s*(0[xX][0-9a-fA-F]+|\d+)\s*;', code), 'RTCM3_PREAMBLE').group(1))
-    hb = cint(need(re.search(r'RTCM_HEADER_BYTES\s*=\s*(\d+)\s*;', code), 'RTCM_HEADER_BYTES').group(1))
-    cb = cint(need(re.search(r'RTCM_CRC_BYTES\s*=\s*(\d+)\s*;', code), 'RTCM_CRC_BYTES').group(1))
-    need(re.search(r'RTCM_OVERHEAD_BYTES=RTCM_HEADER_BYTES\+RTCM_CRC_BYTES;', flat), 'RTCM_OVERHEAD_BYTES')
-    mp = cint(need(re.search(r'RTCM_MAX_SIZE_BYTES=RTCM_HEADER_BYTES\+(\d+)\+RTCM_CRC_BYTES;', flat), 'RTCM_MAX_SIZE_BYTES').group(1))
-    tb = need(re.search(r'RTCM_CRC24Q\s*\[\s*256\s*\]\s*=\s*\{(.*?)\}\s*;', code, re.S), 'RTCM_CRC24Q table').group(1)
-    table = [cint(x) for x in tb.split(',') if x.strip()]
-    if len(table) != 256:
-        raise RuntimeError('gen_c14: table has %d entries' % len(table))
-    # CRC24Hash: unsigned crc = 0; crc = (crc << 8) ^ T[data[i] ^ (unsigned char)(crc >> 16)]; crc & 0x00ffffff
-    h = need(re.search(r'CRC24Hash\(constuint8_t\*data,size_tlen\)\{(.*?)returncrc;\}', flat), 'CRC24Hash').group(1)
-    need(re.search(r'unsignedcrc=(\d+);', h), 'CRC24Hash init')
-    init = cint(re.search(r'unsignedcrc=(\d+);', h).group(1))
-    need(re.search(r'for\(i=0;i<len;i\+\+\)\{crc=\(crc<<8\)\^RTCM_CRC24Q\[data\[i\]\^\(unsignedchar\)\(crc>>16\)\];\}', h), 'CRC24Hash loop')
-    mask = cint(need(re.search(r'crc=\(crc&(0[xX][0-9a-fA-F]+)\);', h), 'CRC24Hash mask').group(1))
-    need(re.search(r'EndianSwap16\(constuint8_t\*num_ptr\)\{return\(num_ptr\[0\]<<8\)\|\(num_ptr\[1\]<<0\);\}', flat), 'EndianSwap16')
-    need(re.search(r'EndianSwap24\(constuint8_t\*num_ptr\)\{return\(num_ptr\[0\]<<16\)\|\(num_ptr\[1\]<<8\)\|\(num_ptr\[2\]<<0\);\}', flat), 'EndianSwap24')
-    lm = cint(need(re.search(r'payload_size_bytes=header_byte_1_2_le&(0[xX][0-9a-fA-F]+);', flat), 'length mask').group(1))
-    ts = cint(need(re.search(r'message_type=header_byte_3_4_le>>(\d+);', flat), 'message type shift').group(1))
-    need(re.search(r'header_byte_1_2_le=EndianSwap16\(buffer_\+1\);', flat), 'length bytes position')
-    need(re.search(r'header_byte_3_4_le=EndianSwap16\(buffer_\+RTCM_HEADER_BYTES\);', flat), 'message number position')
-    clamp = cint(need(re.search(r'capacity_bytes>(0[xX][0-9a-fA-F]+)\)', flat), 'SetBuffer clamp').group(1))
-    al = need(re.search(r'\(reinterpret_cast<size_t>\(buffer_unaligned\)\+(\d+)\)&~\(static_cast<size_t>\((\d+)\)\)', flat), 'SetBuffer alignment')
-    extra = cint(need(re.search(r'SetBuffer\(nullptr,capacity_bytes\+(\d+)\);', flat), 'managed extra bytes').group(1))
-    if al.group(1) != al.group(2):
-        raise RuntimeError('gen_c14: alignment add/mask differ')
-    vals = {'RTCM_PREAMBLE': pre, 'RTCM_HEADER_BYTES': hb, 'RTCM_CRC_BYTES': cb, 'RTCM_MAX_PAYLOAD': mp, 'RTCM_LEN_MASK': lm,
-            'RTCM_TYPE_SHIFT': ts, 'RTCM_CRC_INIT': init, 'RTCM_CRC_MASK': mask, 'RTCM_CLAMP': clamp,
-            'RTCM_ALIGN_MASK': cint(al.group(2)), 'RTCM_MANAGED_EXTRA': extra}
-    t = vf.gen_header([SRC]) + 'From Coq Require Import NArith.\nOpen Scope N_scope.\n'
-    for k, v in vals.items():
-        t += 'Definition %s : N := %d.\n' % (k, v)
-    vf.write_if_changed(os.path.join(vf.THEORIES, 'Generated', 'RtcmConsts.v'), t)
-    t = vf.gen_header([SRC]) + 'From Coq Require Import NArith List.\nImport ListNotations.\nOpen Scope N_scope.\n'
-    t += 'Definition crc24q_table_src : list N :=\n  [' + ';\n   '.join('; '.join(str(x) for x in table[i:i + 8]) for i in range(0, 256, 8)) + '].\n'
-    vf.write_if_changed(os.path.join(vf.THEORIES, 'Generated', 'Crc24qTable.v'), t)
-    return vals
+    vals = constants()
+    write(vals)
+    return {k: vals[k] for k in KEYS}
 
 
 if __name__ == '__main__':
